@@ -140,13 +140,24 @@ fn run_word(word: &[u8], ending: usize, with_shx: bool, sa: &Shape, sb: &Shape, 
                     }
                     drop(w);
                 }
-                _ => {
+                2 => {
                     let tail = [sa, sb];
                     if let Err(e) = write_tail(w, &tail) {
                         error = Some(format!("write_shapes: {}", err_class(&e)));
                     }
                     written.push(sa);
                     written.push(sb);
+                }
+                _ => {
+                    // the caller's code panics while the writer is alive: the writer is dropped
+                    // during unwinding, which is a drop like any other
+                    let r = std::panic::catch_unwind(std::panic::AssertUnwindSafe(move || {
+                        let _alive = w;
+                        panic!("probe: caller panics while the writer is alive");
+                    }));
+                    if r.is_ok() {
+                        error = Some("probe panic did not unwind".into());
+                    }
                 }
             }
         }
@@ -268,7 +279,7 @@ pub fn run(ctx: &Ctx) -> Report {
             if wi % blocks != block {
                 continue;
             }
-            for ending in 0..3 {
+            for ending in 0..4 {
                 let case = format!("c09:t{}:x{}:w{}:e{}", t, with_shx as u8, wi, ending);
                 if !ctx.want(&case) {
                     continue;
@@ -282,7 +293,7 @@ pub fn run(ctx: &Ctx) -> Report {
                     let mut v = vec![
                         ("type", J::s(type_name(t))),
                         ("word", J::s(word_str(word))),
-                        ("ending", J::s(["drop", "finalize+drop", "write_shapes([a,b])"][ending])),
+                        ("ending", J::s(["drop", "finalize+drop", "write_shapes([a,b])", "drop while the caller's panic unwinds"][ending])),
                         ("with_index", J::Bool(with_shx)),
                     ];
                     v.extend(extra);
@@ -314,7 +325,7 @@ pub fn run(ctx: &Ctx) -> Report {
     });
     if ctx.only.is_none() {
         let e = rep.evaluations;
-        rep.guard("histories enumerated", e, (types.len() * 2 * words.len() * 3) as u64);
+        rep.guard("histories enumerated", e, (types.len() * 2 * words.len() * 4) as u64);
         let f = rep.counters.get("noop_finalize_calls_observed").copied().unwrap_or(0);
         rep.guard("no-op finalize calls observed", f, 100);
         if !cfg!(miri) {
